@@ -53,7 +53,7 @@ def add_table(mc, table, Never, Yes):
         mc.add_move(Never(), criteria=Yes(), name=ent["name"], interval=ent["e"]["interval"], probability=float(ent["e"]["weight"]), minimum_count=ent["e"]["min"])
 
 
-def drive(mc, entry, nsteps):
+def drive(mc, entry, nsteps, mutate=None):
     per_step = []
     if entry == "run":
         # observe through move_history at every step boundary with a recording observer
@@ -76,12 +76,19 @@ def drive(mc, entry, nsteps):
     s = 0
     for stepgen in it:
         if entry == "irun":
+            # the table may be changed between two steps (public MoveStorage attributes): the step uses what it sees
+            if mutate is not None:
+                mutate(mc, s)
             names = [str(n) for n in stepgen]
         else:
             names = [str(n) for n, _ in mc.move_history]
-        per_step.append((s, names))
+        per_step.append((s, names) if mutate is None else (s, names, snapshot(mc)))
         s += 1
     return per_step
+
+
+def snapshot(mc):
+    return [{"name": n, "e": {"interval": int(st.interval), "weight": int(st.probability), "min": int(st.minimum_count)}} for n, st in mc.moves.items()]
 
 
 def run(tier: str) -> int:
@@ -163,13 +170,27 @@ def run(tier: str) -> int:
             nsteps = int(min(2 * np.lcm.reduce([t["e"]["interval"] for t in table]), 40))
             entry = ("run", "srun", "irun")[k % 3]
             per_step = []
+            def mutate(sim, step, _rs=rs, _c=cycles):
+                if _rs.rand() < 0.4:
+                    nm = list(sim.moves)[_rs.randint(len(sim.moves))]
+                    st = sim.moves[nm]
+                    others = sum(x.minimum_count for k2, x in sim.moves.items() if k2 != nm)
+                    st.probability = float(_rs.choice([0, 1, 2, 5]))
+                    st.interval = int(_rs.randint(1, 5))
+                    st.minimum_count = int(_rs.randint(0, max(1, _c - others + 1)))
+                # keep every step schedulable: the first entry is always due and has positive weight
+                first = sim.moves[list(sim.moves)[0]]
+                first.probability = max(float(first.probability), 1.0)
+                first.interval = 1
+
             try:
-                per_step = drive(mc, entry, nsteps)
+                per_step = drive(mc, entry, nsteps, mutate if entry == "irun" else None)
             except Exception as ex:  # noqa: BLE001
                 over = sum(t["e"]["min"] for t in table) > cycles
                 rep.violation(f"raise:run:{type(ex).__name__}:{'overcommitted-table' if over else 'legal-table'}", f"{entry}({nsteps}) raised {ex!r} for table {table} with {cycles} cycles", {"table": table, "cycles": cycles})
-            for s, names in per_step:
-                records.append({"kind": "step", "table": table, "cycles": cycles, "step": int(s), "emitted": names, "min": 0, "refused": False})
+            for item in per_step:
+                s, names = item[0], item[1]
+                records.append({"kind": "step", "table": item[2] if len(item) > 2 else table, "cycles": cycles, "step": int(s), "emitted": names, "min": 0, "refused": False})
             continue
         tf = os.path.join(tmp, "records.json")
         json.dump(records, open(tf, "w"))
